@@ -9,6 +9,11 @@ NOTE_COMMON = ("Trusted base of a 'held' verdict: CPython executing the repo sou
                "it is a concrete input that fails on the installed package.")
 
 CLAIMED = {
+    "C01": ("bounded symbolic execution of get_phase_field / Emulsion.get_phasefield + locate_droplets (unrefined) on "
+            "concrete grids (Cartesian 1D 4-9 cells, 2D 3x3/4x3/4x4, every periodicity mask, anisotropic offset "
+            "spacing; polar/spherical 3-6 cells; cylindrical 3x4/3x5) with droplet centres and radii symbolic; z3 "
+            "decides: one droplet per original, volume = covered cells (own min-image oracle), centre within half a "
+            "cell, position inside the box", "§4 C01"),
     "C06": ("bounded symbolic execution of DropletTrackList.from_emulsion_time_course on time courses of <=3 frames x "
             "<=2 droplets (thorough: 3 droplets / 4 frames), 1D/2D, with and without periodic grid, both methods; "
             "positions, radii, times and cut-off symbolic; partition, copy-independence, consecutive-frame and "
